@@ -1,7 +1,7 @@
 (* GENERATED on every run by harness/translate/pysrc.py from the Python sources of the tree
    under test — do not edit.  Each definition is the translation of one function's source text;
-   Proofs/GenEq.v proves it equal to the hand-written model for all inputs. *)
-From CG Require Import Model.Loop.
+   Proofs/GenEq*.v prove it equal to the hand-written model for all inputs. *)
+From CG Require Import Model.Loop Model.Recur Model.Cache.
 
 
 (* calgebra/interval.py: Interval.finite_start *)
@@ -113,47 +113,32 @@ Definition g_merged_fetch_forward (source_fetch : option Z -> option Z -> bool -
       let out := @nil ivl in
       match current with
       | Some current =>
-        if ((is_none (en current)) || (is_none (st interval_))) then
-          let can_merge := true in
-          if can_merge then
-            let new_end := (en current) in
+        let can_merge :=
+          if ((is_none (en current)) || (is_none (st interval_))) then
+            let can_merge := true in
+            can_merge
+          else
+            let gap_ := ((ozd (st interval_)) - (ozd (en current))) in
+            let can_merge := (gap_ <=? self_gap) in
+            can_merge in
+        if can_merge then
+          let new_end := (en current) in
+          let new_end :=
             if ((is_none new_end) || (is_none (en interval_))) then
               let new_end := None in
-              let current := (Some (set_span current (st current) new_end)) in
-              (out, current, Cont)
+              new_end
             else
               if ((ozd (en interval_)) >? (ozd new_end)) then
                 let new_end := (en interval_) in
-                let current := (Some (set_span current (st current) new_end)) in
-                (out, current, Cont)
+                new_end
               else
-                let current := (Some (set_span current (st current) new_end)) in
-                (out, current, Cont)
-          else
-            let out := out ++ [current] in
-            let current := (Some interval_) in
-            (out, current, Cont)
+                new_end in
+          let current := (Some (set_span current (st current) new_end)) in
+          (out, current, Cont)
         else
-          let gap_ := ((ozd (st interval_)) - (ozd (en current))) in
-          let can_merge := (gap_ <=? self_gap) in
-          if can_merge then
-            let new_end := (en current) in
-            if ((is_none new_end) || (is_none (en interval_))) then
-              let new_end := None in
-              let current := (Some (set_span current (st current) new_end)) in
-              (out, current, Cont)
-            else
-              if ((ozd (en interval_)) >? (ozd new_end)) then
-                let new_end := (en interval_) in
-                let current := (Some (set_span current (st current) new_end)) in
-                (out, current, Cont)
-              else
-                let current := (Some (set_span current (st current) new_end)) in
-                (out, current, Cont)
-          else
-            let out := out ++ [current] in
-            let current := (Some interval_) in
-            (out, current, Cont)
+          let out := out ++ [current] in
+          let current := (Some interval_) in
+          (out, current, Cont)
       | None =>
         let current := (Some interval_) in
         (out, current, Cont)
@@ -168,3 +153,54 @@ Definition g_merged_fetch_forward (source_fetch : option Z -> option Z -> bool -
         out
       end)
     current (source_fetch start end_ false).
+
+(* calgebra/recurrence.py: RecurringPattern._fetch_forward *)
+Definition g_recur_fetch_forward {DT : Type} (self_freq : freq) (self_interval : Z) (self_duration_seconds : Z) (self_exdates : list Z) (dt_fromtimestamp : Z -> DT) (get_safe_anchor : DT -> DT) (dt_midnight : DT -> DT) (rrule_of : DT -> list DT) (occurrence_to_interval : DT -> ivl) (start : option Z) (end_ : option Z) : res (list ivl) :=
+  match start with
+  | Some start =>
+    let lookback_buffer := self_duration_seconds in
+    let lookback_buffer :=
+      if (freq_eqb self_freq Daily) then
+        let lookback_buffer := (lookback_buffer + (self_interval * 86400)) in
+        lookback_buffer
+      else
+        if (freq_eqb self_freq Weekly) then
+          let lookback_buffer := (lookback_buffer + (self_interval * 604800)) in
+          lookback_buffer
+        else
+          if (freq_eqb self_freq Monthly) then
+            let lookback_buffer := (lookback_buffer + ((self_interval * 32) * 86400)) in
+            lookback_buffer
+          else
+            if (freq_eqb self_freq Yearly) then
+              let lookback_buffer := (lookback_buffer + ((self_interval * 366) * 86400)) in
+              lookback_buffer
+            else
+              lookback_buffer in
+    let lookback_start_ts := (start - lookback_buffer) in
+    let lookback_start_dt := (dt_fromtimestamp lookback_start_ts) in
+    let anchor_dt := (get_safe_anchor lookback_start_dt) in
+    let anchor_dt := (dt_midnight anchor_dt) in
+    let rules := (rrule_of anchor_dt) in
+    RDone (run_for
+      (fun _ occurrence =>
+        let out := @nil ivl in
+        let ivl_ := (occurrence_to_interval occurrence) in
+        if (match (st ivl_) with Some v_ => zmem v_ self_exdates | None => false end) then
+          (out, tt, Cont)
+        else
+          if ((negb (is_none (en ivl_))) && ((ozd (en ivl_)) <=? start)) then
+            (out, tt, Cont)
+          else
+            if ((negb (is_none end_)) && (negb (is_none (st ivl_))) && ((ozd (st ivl_)) >? (ozd end_))) then
+              (out, tt, Brk)
+            else
+              let out := out ++ [ivl_] in
+              (out, tt, Cont))
+      (fun _ =>
+        let out := @nil ivl in
+        out)
+      tt rules)
+  | None =>
+    (RRaise ValueError)
+  end.
